@@ -76,6 +76,28 @@ exec /venv/bin/$tool "$@"
 """
 
 
+ZOPFLI_SHIM = """import os, sys, runpy
+_m = os.environ.get("NV_FAULT_MARKER")
+_here = os.path.realpath(os.path.join(os.path.dirname(__file__), ".."))
+def _real():
+    sys.path[:] = [p for p in sys.path if os.path.realpath(p or ".") != _here]
+    for k in [k for k in sys.modules if k == "zopfli" or k.startswith("zopfli.")]:
+        del sys.modules[k]
+    runpy.run_module("zopfli.png", run_name="__main__", alter_sys=True)
+if __name__ == "__main__":
+    txt = open(_m).read() if _m and os.path.exists(_m) else ""
+    if txt.startswith("zopflipng:"):
+        if txt.endswith("late"):
+            try:
+                _real()
+            except SystemExit:
+                pass
+            sys.exit(3)
+        open(sys.argv[-1], "wb").write(b"\\x89PNG")
+        sys.exit(3)
+    _real()
+"""
+
 GRADIENT_RICH = ('<defs><radialGradient id="r" cx="50" cy="50" r="60" gradientUnits="userSpaceOnUse"><stop offset="0" stop-color="#ffee00"/>'
                  '<stop offset="0.4" stop-color="#ff2200"/><stop offset="1" stop-color="#0011aa"/></radialGradient>'
                  '<linearGradient id="l" x1="0" y1="0" x2="100" y2="100" gradientUnits="userSpaceOnUse"><stop offset="0" stop-color="#00ff88" stop-opacity="0.8"/>'
@@ -109,7 +131,12 @@ def run_history(job):
             (shim / tool).write_text(FAIL_SHIM)
             (shim / tool).chmod(0o755)
         marker = d / "FAULT"
-        env = {"PATH": f"{shim}:{cli.BASE_ENV['PATH']}", "NV_FAULT_MARKER": str(marker)}
+        # `python -m zopfli.png` is not a PATH tool: a package of the same name earlier on PYTHONPATH injects the fault, else delegates
+        zdir = shim / "py" / "zopfli"
+        zdir.mkdir(parents=True)
+        (zdir / "__init__.py").write_text("")
+        (zdir / "png.py").write_text(ZOPFLI_SHIM)
+        env = {"PATH": f"{shim}:{cli.BASE_ENV['PATH']}", "NV_FAULT_MARKER": str(marker), "PYTHONPATH": str(shim / "py")}
         files = {f"emoji_u{0x1F600 + i:x}.svg": svg(i) for i in range(3)}
         for n, t in files.items():
             (src / n).write_text(t)
@@ -154,11 +181,11 @@ def run_history(job):
                 rc, out = invoke()
                 log.append(("invoke", rc))
             elif kind == "invoke-fault":
-                # make one source newer so that a picosvg step really runs, then fail it
+                # make one source newer so that the step (picosvg by default; resvg / zopflipng in the bitmap pipeline) really runs, then fail it
                 ps = sorted(src.glob("*.svg"))
                 ps[0].write_text(ps[0].read_text() + " ")
                 bump(ps[0])
-                marker.write_text("x")
+                marker.write_text((ev[1] + ":trunc") if len(ev) > 1 else "x")
                 rc, out = invoke()
                 marker.unlink()
                 log.append(("invoke-fault", rc))
@@ -396,6 +423,9 @@ def suite(ctx, res, n_random):
     # bitmap pipeline (resvg -> pngquant -> zopflipng): option changes that make pngquant reuse its input
     hs.append((50, [("option", "use_zopflipng", False), ("option", "pngquant_flags", "--speed 1 --skip-if-larger --quality 100-100"), ("invoke",), ("option", "use_zopflipng", True)], "cbdt"))
     hs.append((51, [("option", "bitmap_resolution", 64), ("invoke",), ("option", "use_pngquant", False), ("invoke",), ("option", "use_pngquant", True)], "cbdt"))
+    # faults at the other nodes of the bitmap pipeline: the invocation must exit non-zero and the next one must recover
+    hs.append((52, [("invoke-fault", "zopflipng")], "cbdt"))
+    hs.append((53, [("invoke-fault", "resvg"), ("invoke-fault", "zopflipng")], "sbix"))
     hs += [(100 + i, gen_history(ctx.rng), ctx.rng.choice(["glyf_colr_1", "picosvg"])) for i in range(n_random)]
     with ThreadPoolExecutor(max_workers=8) as ex:
         results = list(ex.map(run_history, hs))
